@@ -304,7 +304,8 @@ def make_cluster(rng, mode, exact=True):
             if form == "hmsf":
                 kw.update(hour_of_day=h, minute_of_hour=m, second_of_minute=s,
                           second_of_minute_decimal=rng.choice(
-                              (0.5, 0.25, 0.75, 0.000001, 0.999999)))
+                              (0.5, 0.25, 0.75, 0.000001, 0.999999,
+                               2.0 ** -10, 1 - 2.0 ** -12)))
             elif form == "hm":
                 kw.update(hour_of_day=h, minute_of_hour=m,
                           minute_of_hour_decimal=s / 60.0)
@@ -312,6 +313,49 @@ def make_cluster(rng, mode, exact=True):
                 kw.update(hour_of_day=h,
                           hour_of_day_decimal=(m * 60 + s) / 3600.0)
         pts.append(kw)
+    return {"op": "cluster", "mode": mode, "points": pts}
+
+
+def binary_fraction_cluster(rng, mode):
+    """one instant with a fine binary fraction of a second, spelled as
+    decimal hours (k/2048 h), decimal minutes and decimal seconds, beside
+    neighbours a binary fraction of a microsecond away (exact in floats)"""
+    y = gen.rand_year(rng, -500, 9000)
+    rd = gen.rand_rd(rng, mode, y, bias=0.5)
+    h = rng.randrange(24)
+    k = rng.randrange(1, 2048)
+    secs = F(k * 3600, 2048)               # exact: 3600/2048 = 225/128
+    m, s = divmod(secs, 60)
+    off = rng.choice(((0, 0), (1, 0), (-5, 0), (0, 0)))
+    pts = []
+    for rep in rng.sample(gen.REPS, 2):
+        kw = gen.date_kwargs(mode, rep, rd)
+        kw.update(gen.zone_kwargs((0, 0)))
+        kw.update(hour_of_day=h, hour_of_day_decimal=k / 2048.0)
+        pts.append(kw)
+    kw = gen.date_kwargs(mode, rng.choice(gen.REPS), rd)
+    kw.update(gen.zone_kwargs((0, 0)))
+    kw.update(hour_of_day=h, minute_of_hour=int(m),
+              second_of_minute=int(s),
+              second_of_minute_decimal=float(s - int(s)))
+    pts.append(kw)
+    kw = gen.date_kwargs(mode, rng.choice(gen.REPS), rd)
+    kw.update(gen.zone_kwargs((0, 0)))
+    kw.update(hour_of_day=h, minute_of_hour=int(m),
+              minute_of_hour_decimal=float(s / 60)
+              if (s / 60).denominator <= 4096 and
+              not (s / 60).denominator & ((s / 60).denominator - 1)
+              else 0.5)
+    pts.append(kw)
+    # neighbours 2**-34 h (0.21 us) and 2**-24 min later
+    kw = dict(pts[0])
+    kw["hour_of_day_decimal"] = k / 2048.0 + 2.0 ** -34
+    pts.append(kw)
+    kw = gen.date_kwargs(mode, rng.choice(gen.REPS), rd)
+    kw.update(gen.zone_kwargs((0, 0)))
+    kw.update(hour_of_day=h, minute_of_hour=int(m),
+              minute_of_hour_decimal=2.0 ** -24)
+    pts.append(kw)
     return {"op": "cluster", "mode": mode, "points": pts}
 
 
@@ -366,7 +410,24 @@ def workload(ctx, repo):
                 continue
             ctx.case = case
             run_case(ctx, repo, case)
+    # one instant (and its neighbours a second and an hour away) spelled in
+    # every offset of a grid: all ordered pairs get compared
+    if ctx.worker == 0:
+        for mode in R.MODES:
+            inst = 730120 * 86400 + 1800
+            pts = [gen.tp_from_instant(rng, mode, inst + (0, 0, 0, 1, 3600)[
+                       i % 5], offset=off, allow_2400=False)
+                   for i, off in enumerate(gen.OFFSET_GRID)]
+            case = {"op": "cluster", "mode": mode, "points": pts}
+            ctx.case = case
+            ctx.ev("cases.offset-grid")
+            run_case(ctx, repo, case)
     n = 1500 if ctx.tier == "quick" else 6000
+    for k in range(n // 10):
+        case = binary_fraction_cluster(rng, R.MODES[k % 4])
+        ctx.case = case
+        ctx.ev("cases.binary-fraction")
+        run_case(ctx, repo, case)
     for k in range(n):
         mode = R.MODES[k % 4] if k % 3 == 0 else "gregorian"
         case = make_cluster(rng, mode, exact=(k % 5 != 0))
